@@ -31,10 +31,20 @@ def run(ctx):
     ctx.floor('C16.aliasing_checked', 500)
     saved = ctx.deadline
     sub = {'quick': 4, 'thorough': 60}[ctx.tier]
-    for drv in (w_alg.drive_composite, w_alg.drive_embed, w_alg.drive_merge, w_alg.drive_mask,
-                w_alg.drive_forwards):
-        ctx.deadline = ctx.clock() + sub
-        drv(ctx, ctx.tier)
+    # every driver on bare parameter lists and on parameter lists with defaults and annotations (which side a result
+    # parameter is built from -- and whose lists it may share -- is decided by that metadata)
+    mpool = w_alg.MetaPool(ctx.rng('meta'), anns=('1', '2'), p_ann=0.4)
+    fpool = w_alg.MetaPool(ctx.rng('meta-future'), anns=('T', 'U'), p_ann=0.4, future=True, globs={'T': int, 'U': str})
+    for drv, kw in ((w_alg.drive_composite, {}), (w_alg.drive_embed, {}), (w_alg.drive_merge, {}), (w_alg.drive_mask, {}),
+                    (w_alg.drive_forwards, {}), (w_alg.drive_merge, dict(pool=mpool)), (w_alg.drive_embed, dict(pool=fpool)),
+                    (w_alg.drive_forwards, dict(pool=mpool)), (w_alg.drive_composite, dict(pool=fpool))):
+        ctx.deadline = ctx.clock() + (sub if not kw else sub / 2.0)
+        drv(ctx, ctx.tier, **kw)
+    # merge of ONE signature (the fold runs no step): the result must not share its provenance with the input
+    S = w_alg.sigapi()
+    for pl in (mpool, w_alg.SigPool()):
+        for params in w_alg.sigs.U(('a', 'b'), 2)[:60]:
+            w_alg.call(S.merge, pl.sig(params))
     ctx.deadline = saved
     monitor.disable_all()
     from .. import w_fault
